@@ -389,8 +389,59 @@ def exhaustive_programs():
     return progs + extra
 
 
+def multi_statement_programs(rng, n_random):
+    """several foldable expressions in ONE module: operations with the same operator whose operands are equal as numbers but
+    of different types (2 / 2.0 / True / 2+0j), in every order, so that anything remembered from one fold is wrong for the next"""
+    progs = []
+    ops = ['+', '-', '*', '%', '//', '&', '|', '^', '<<', '>>']
+    spell = {'int': lambda v: str(v), 'float': lambda v: repr(float(v)), 'bool': lambda v: {0: 'False', 1: 'True'}.get(v), 'complex': lambda v: '(%s+0j)' % v}
+    for op in ops:
+        for (x, y) in [(1, 1), (2, 2), (1, 0), (3, 5), (4, 2), (0, 1)]:
+            stmts = []
+            for kx in ('int', 'float', 'bool', 'complex'):
+                for ky in ('int', 'float', 'bool'):
+                    a, b = spell[kx](x), spell[ky](y)
+                    if a is None or b is None:
+                        continue
+                    stmts.append('v%d = %s %s %s' % (len(stmts), a, op, b))
+            for order in (stmts, list(reversed(stmts))):
+                progs.append('\n'.join(order) + '\n')
+            rng.shuffle(stmts)
+            progs.append('\n'.join(stmts[:5]) + '\n')
+            progs.append('w = [%s]\n' % ', '.join(st.split(' = ', 1)[1] for st in stmts[:6]))
+            progs.append('a = (%s) * 10\nb = (%s) * 10.0\n' % (stmts[0].split(' = ', 1)[1], stmts[1].split(' = ', 1)[1]))
+    for _ in range(n_random):
+        progs.append('\n'.join('r%d = %s' % (i, gen_literal(rng, rng.randint(1, 3))) for i in range(rng.randint(2, 5))) + '\n')
+    return progs
+
+
+def length_boundary_programs():
+    """literal expressions whose value prints one character longer than / as long as / one character shorter than the
+    expression, as an operand (either side) of every binary operator next to a name: whether parentheses are needed there
+    differs by operator, and the "not longer" rule must use the text that is really printed"""
+    cands = ['1<<17', '1<<18', '3<<16', '255<<16', '7<<15', '1<<13', '1<<14', '1<<16', '10*10', '9*9', '99+1', '5-10', '1-2', '0-1', '2*5', '4//1',
+             '7%8', '1|2', '6&3', '5^1', '100*100', '1000*1000', '12*12*12', '2.5*2', '1.5+1.5', '10-10.0', '1j*1j', '8>>1', '1<<10', '1<<9']
+    ops = ['+', '-', '*', '/', '//', '%', '**', '<<', '>>', '&', '|', '^', '@']
+    out = []
+    for e in cands:
+        for op in ops:
+            out.append('x = some_name %s %s' % (op, e))
+            out.append('x = %s %s some_name' % (e, op))
+        out.append('x = -(%s)' % e)
+        out.append('x = some_name[%s]' % e)
+        out.append('x = some_name if %s else other' % e)
+        out.append('x = (%s).real' % e)
+        out.append('x = some_name < %s' % e)
+        out.append('x = some_name and %s' % e)
+    return out
+
+
 def run(ctx):
     pyint_validation(ctx, ctx.scale(600, 6000))
+    lb = length_boundary_programs()
+    ctx.exhaustive['length_boundary_expression_x_parent_operator_x_side'] = len(lb)
+    run_batch(ctx, lb, 'length-boundary')
+    run_batch(ctx, multi_statement_programs(ctx.rng, ctx.scale(60, 1500)), 'multi-statement')
     ex = exhaustive_programs()
     ctx.exhaustive['operator_x_operand_kinds_and_fixed_cases'] = len(ex)
     run_batch(ctx, ex, 'exhaustive')
